@@ -73,7 +73,7 @@ func C20(p *core.Program, r *core.Report) {
 				if call, isCall := core.CondIsCall(c, bp7+".DTLSRPeerData.ShouldReplace"); isCall && c.True {
 					// receiver = new data (value stored), arg = the stored record looked up under the same key
 					okNew := sameLoadedVar(core.CallRecv(call), mu.Value)
-					okOld := core.DependsOn(core.CallArgs(call)[0], func(v ssa.Value) bool {
+					okOld := core.DependsOn(core.Arg(call, 0), func(v ssa.Value) bool {
 						l, isL := v.(*ssa.Lookup)
 						return isL && pathEndsWith(l.X, "receivedData")
 					})
@@ -103,7 +103,7 @@ func C20(p *core.Program, r *core.Report) {
 	// the new node's own ID is numbered on the !present arm
 	okOwn := false
 	for _, c := range core.CallsTo(nnb, routingPkg+".DTLSR.newNode") {
-		if pathEndsWith(core.CallArgs(c)[0], "ID") && !core.InLoop(c.Block()) {
+		if pathEndsWith(core.Arg(c, 0), "ID") && !core.InLoop(c.Block()) {
 			okOwn = true
 		}
 	}
@@ -258,7 +258,7 @@ func C20(p *core.Program, r *core.Report) {
 		}
 	})
 	for _, c := range core.CallsTo(crt, "github.com/RyanCarrier/dijkstra.Graph.Shortest") {
-		if k, ok := core.ConstInt(core.CallArgs(c)[0]); ok && k == 0 {
+		if k, ok := core.ConstInt(core.Arg(c, 0)); ok && k == 0 {
 			okShort = true
 		}
 	}
@@ -279,7 +279,7 @@ func C20(p *core.Program, r *core.Report) {
 	nArc := 0
 	for _, c := range core.CallsTo(crt, "github.com/RyanCarrier/dijkstra.Graph.AddArc") {
 		nArc++
-		cost := core.CallArgs(c)[2]
+		cost := core.Arg(c, 2)
 		ok := false
 		detail := ""
 		// the cost computation extracted into a helper f(now, timestamp): check the shape inside the helper
@@ -355,6 +355,9 @@ func C20(p *core.Program, r *core.Report) {
 	r.Min("AddArc calls", 2)
 	r.Count("AddArc calls", nArc)
 
+	// ---- (6) link events reach the link state the arc costs are computed from
+	checkLinkEvents(p, r)
+
 	// ---- (5) AT
 	g := newGuardedEngine(p)
 	n := g.checkGuarded(r, dtlsrGuarded, false)
@@ -408,4 +411,97 @@ func isIndexNodeElem(v ssa.Value) ssa.Value {
 		return nil
 	}
 	return ia.Index
+}
+
+// checkLinkEvents: the arc cost rule (4) reads peers.Peers[p]: 0 means live,
+// a time stamp means lost since then. For the table to describe the links as
+// they are, every appearance of a peer must reset the entry to 0 and every
+// disappearance must set it to the current time, flag the change (so that the
+// table is recomputed and the state broadcast) and stamp the record — on every
+// path on which the event names a peer. The only accepted way round the store
+// is a test showing that the entry already has the value.
+func checkLinkEvents(p *core.Program, r *core.Report) {
+	for _, ev := range []struct {
+		name string
+		live bool
+	}{{"ReportPeerAppeared", true}, {"ReportPeerDisappeared", false}} {
+		fn := p.Func(routingPkg, "DTLSR", ev.name)
+		// the peer's endpoint ID
+		var idCall *ssa.Call
+		core.EachInstr(fn, func(in ssa.Instruction) {
+			if c, ok := in.(*ssa.Call); ok && c.Common().IsInvoke() && c.Common().Method.Name() == "GetPeerEndpointID" {
+				idCall = c
+			}
+		})
+		key := "link-events/" + fname(fn) + "/"
+		if idCall == nil {
+			r.Fail(key+"peer-id", "the event handler obtains the peer's endpoint ID", p.Pos(fn.Pos()), "GetPeerEndpointID not called")
+			continue
+		}
+		isEntryStore := func(i ssa.Instruction) bool {
+			mu, ok := i.(*ssa.MapUpdate)
+			if !ok || !pathEndsWith(mu.Map, "peers", "Peers") || mu.Key != ssa.Value(idCall) {
+				return false
+			}
+			k, isC := core.ConstInt(mu.Value)
+			if ev.live {
+				return isC && k == 0
+			}
+			c, isCall := mu.Value.(*ssa.Call)
+			return isCall && core.NameIs(core.CalleeName(c), bp7+".DtnTimeNow")
+		}
+		isFlag := func(i ssa.Instruction) bool {
+			st, ok := i.(*ssa.Store)
+			return ok && core.IsField(st.Addr, routingPkg, "DTLSR", "peerChange") && core.IsBoolConst(st.Val, true)
+		}
+		isStamp := func(i ssa.Instruction) bool {
+			st, ok := i.(*ssa.Store)
+			return ok && pathEndsWith(st.Addr, "peers", "Timestamp")
+		}
+		// a return after the ID is known may skip the store only behind "entry already has this value"
+		alreadySo := func(ret ssa.Instruction) bool {
+			for _, cd := range core.DominatingConds(ret.Block()) {
+				b, ok := cd.V.(*ssa.BinOp)
+				if !ok || !((b.Op == token.EQL && cd.True) || (b.Op == token.NEQ && !cd.True)) {
+					continue
+				}
+				for _, pair := range [][2]ssa.Value{{b.X, b.Y}, {b.Y, b.X}} {
+					var lk *ssa.Lookup
+					switch x := pair[0].(type) {
+					case *ssa.Lookup:
+						lk = x
+					case *ssa.Extract:
+						if l, ok := x.Tuple.(*ssa.Lookup); ok && x.Index == 0 {
+							lk = l
+						}
+					}
+					k, isC := core.ConstInt(pair[1])
+					if lk != nil && pathEndsWith(lk.X, "peers", "Peers") && lk.Index == ssa.Value(idCall) && ev.live && isC && k == 0 {
+						return true
+					}
+				}
+			}
+			return false
+		}
+		what := "the peer's entry in peers.Peers is set to 0 (live link)"
+		if !ev.live {
+			what = "the peer's entry in peers.Peers is set to the current time (link lost now)"
+		}
+		for _, c := range []struct {
+			name string
+			pred func(ssa.Instruction) bool
+			rule string
+		}{
+			{"entry", isEntryStore, "on every path that knows the peer's ID, " + what},
+			{"change-flagged", isFlag, "on every path that knows the peer's ID, peerChange is set so that the routing table is recomputed and the link state broadcast"},
+			{"record-stamped", isStamp, "on every path that knows the peer's ID, the node's own link-state record gets a new time stamp (receivers replace a record only by a strictly newer one)"},
+		} {
+			ok, ex := core.MustPassAfter(idCall, c.pred, func(i ssa.Instruction) bool { return core.IsReturn(i) && !alreadySo(i) })
+			d := ""
+			if !ok && ex != nil {
+				d = "the return at " + p.Pos(ex.Pos()) + " is reached without it: the link state keeps describing the peer as it was before this event (e.g. a peer that reconnects within the purge window stays 'lost', its live link is costed by the time since the loss)"
+			}
+			r.Check(ok, key+c.name, c.rule, p.Pos(idCall.Pos()), "", d)
+		}
+	}
 }
